@@ -169,13 +169,16 @@ def r_acceptance(ck: Checker) -> None:
     ck.add("a body that is not strictly cheaper is discarded", ok, func, cost[0] if cost else func.node, f"`newbody = oldstm.body` under `cost(newbody) >= cost(old)`: {ok}", "")
     upd = [c for c in attr_calls(func, "update") if unparse(c.func.value) == "needed"]  # type: ignore[attr-defined]
     ck.need(len(upd) == 1, "variables that were global and would become local are added to the needed set")
-    txt = unparse(upd[0].args[0]).replace(" ", "")
-    ck.add("needed += (globals of the old body - globals of the remaining body) & variables still present", txt in ("(global_vars_inside_body(stm.body)-global_vars_inside_body(newbody))&allvars", "global_vars_inside_body(stm.body)-global_vars_inside_body(newbody)&allvars"), func, upd[0], f"`{txt}`",
+    txts_n = {t.replace(" ", "") for t in it.texts(upd[0], upd[0].args[0])} or {unparse(upd[0].args[0]).replace(" ", "")}  # read through named intermediate sets
+    txt = sorted(txts_n)[0]
+    ck.add("needed += (globals of the old body - globals of the remaining body) & variables still present", txts_n <= {"(global_vars_inside_body(stm.body)-global_vars_inside_body(newbody))&allvars", "global_vars_inside_body(stm.body)-global_vars_inside_body(newbody)&allvars"}, func, upd[0], f"`{txt}`",
            "a variable bound only by a simplified aggregate/comparison and used inside a conditional literal must stay defined; with the difference reversed the set is empty and the variable silently becomes local")
     # what an objective requires: the variables of its weight, its priority and every tuple term
-    got_nb = {same_key(t) for s_, t in contributions(func, "need_bound")}
+    from .util import inline_result_names
+    nb_names = inline_result_names(func, "need_bound")  # a collecting helper copied in as `with .. as need_bound: ..; return variables`
+    got_nb = {same_key(t) for nm_ in nb_names for s_, t in contributions(func, nm_)}
     want_nb = {same_key("collect_ast(stm.weight, 'Variable')"), same_key("collect_ast(stm.priority, 'Variable')"), same_key("[_e for t in stm.terms for _e in collect_ast(t, 'Variable')]")}
-    ck.add("an objective needs the variables of weight, priority and all tuple terms", want_nb <= got_nb, func, func.node, f"need_bound is fed {sorted(t for s_, t in contributions(func, 'need_bound'))}",
+    ck.add("an objective needs the variables of weight, priority and all tuple terms", want_nb <= got_nb, func, func.node, f"need_bound is fed {sorted(t for nm_ in nb_names for s_, t in contributions(func, nm_))}",
            "a variable that occurs only in the priority and is defined by a simplified equation (`P = N+1`) loses its definition: `[W@P,J]` becomes unsafe")
     nd = single_def(func, "needed")
     ck.add("needed = everything bound, unbound or required by head / objective", nd is not None and unparse(nd).replace(" ", "") == "set.union(bound_body,unbound_body,need_bound,no_bound_needed)", func, func.node, f"needed = `{unparse(nd) if nd is not None else None}`", "")
@@ -568,7 +571,17 @@ def _api_pass(cname: str):  # type: ignore[no-untyped-def]
             if "output_predicates" in params:
                 ck.add(f"{cname}(output_predicates=...)", bound.get("output_predicates") == p_out, func, call, f"constructor parameter output_predicates is bound to `{bound.get('output_predicates')}`", "outputs must be protected from removal")
             if "prg" in params:
-                ck.add(f"{cname}(prg=...)", bound.get("prg") == "input_", func, call, f"analysed program is `{bound.get('prg')}`", "a pass must analyse the program it rewrites (the current pipeline value): analyses of the raw or of an earlier program name predicates and shapes that the rewritten program no longer has (assertions fail, domain rules refer to predicates nobody defines)")
+                ok_prg = bound.get("prg") == "input_"
+                if not ok_prg and any(isinstance(a_, ast.With) and getattr(a_, "ngosa_inline", None) for a_ in ancestors(func, call)):
+                    # inside a helper that was copied in, the pipeline value travels under the helper's parameter name: the
+                    # program analysed is the program the same translator is then run on, and the result replaces it
+                    holder = enclosing_stmt(func, call)
+                    tname = holder.targets[0].id if isinstance(holder, ast.Assign) and len(holder.targets) == 1 and isinstance(holder.targets[0], ast.Name) and holder.value is call else None
+                    runs = [c for c in attr_calls(func, "execute") if tname is not None and isinstance(c.func.value, ast.Name) and c.func.value.id == tname]  # type: ignore[attr-defined]
+                    if len(runs) == 1 and len(runs[0].args) == 1 and unparse(runs[0].args[0]) == bound.get("prg"):
+                        rstm = enclosing_stmt(func, runs[0])
+                        ok_prg = isinstance(rstm, ast.Assign) and len(rstm.targets) == 1 and unparse(rstm.targets[0]) == bound.get("prg")
+                ck.add(f"{cname}(prg=...)", ok_prg, func, call, f"analysed program is `{bound.get('prg')}`", "a pass must analyse the program it rewrites (the current pipeline value): analyses of the raw or of an earlier program name predicates and shapes that the rewritten program no longer has (assertions fail, domain rules refer to predicates nobody defines)")
             ck.add(f"{cname} is constructed anew in every round", enclosing_loop(func, call) is not None, func, call, f"constructor call inside the `while` loop: {enclosing_loop(func, call) is not None}",
                    "translators accumulate state (known implications, usage, names) that is only valid for the program of that round: reusing one across rounds applies stale facts to a changed program")
         ck.add(f"{cname} is part of the pipeline", found, func, func.node, f"constructor call found: {found}", "", nontrivial=False)
